@@ -426,7 +426,8 @@ class Run:
             'disagreements_checked': self.disagreements_checked,
             'disagreements_found': len(self.disagreements),
             'histogram': self.hist,
-            'exhaustive': self.exhaustive,
+            'exhaustive': bool(self.exhaustive),
+            'exhaustive_scope': (self.exhaustive if isinstance(self.exhaustive, (str, list, dict)) else ''),
             'partial': self.partial,
             'supporting_only': self.supporting,
             'known_findings_hit': [k.get('what') for k in self.known_hits],
